@@ -166,3 +166,63 @@ pub fn proofs() -> &'static Vec<Vec<u8>> {
 pub fn ser_tx(tx: &Transaction) -> Vec<u8> {
     serialize(tx)
 }
+
+// ------------------------------------------------------------------------------------------------
+// leaves of an exact serialised size (length-prefix boundaries: 65534..65537, near MAX_MESSAGE_SIZE)
+
+/// grow `pad` until `size(pad) == target` (the compact-size prefix of the padding moves the result by a
+/// few bytes, so adjust by the difference a few times)
+fn fit(target: usize, size: &dyn Fn(usize) -> usize) -> usize {
+    let base = size(0);
+    assert!(target >= base + 8, "target {} too small for a padded leaf (base {})", target, base);
+    let mut pad = target - base;
+    for _ in 0..8 {
+        let s = size(pad);
+        if s == target {
+            return pad;
+        }
+        if s > target {
+            pad -= s - target;
+        } else {
+            pad += target - s;
+        }
+    }
+    panic!("cannot pad a leaf to exactly {} bytes", target);
+}
+
+/// a transaction whose consensus serialisation has exactly `target` bytes (padding: one output script)
+pub fn gen_tx_sized(rng: &mut Rng, target: usize, signed: bool) -> Transaction {
+    let mut tx = gen_tx(rng, signed, 1);
+    tx.output.truncate(1);
+    tx.output.push(TxOut { value: Amount::from_sat(1), script_pubkey: ScriptBuf::new() });
+    let k = tx.output.len() - 1;
+    let fill = rng.next() as u8;
+    let with = |pad: usize| {
+        let mut t = tx.clone();
+        t.output[k].script_pubkey = ScriptBuf::from(vec![fill; pad]);
+        t
+    };
+    let pad = fit(target, &|p| serialize(&with(p)).len());
+    let t = with(pad);
+    assert_eq!(serialize(&t).len(), target);
+    t
+}
+
+/// a PSBT whose serialisation has exactly `target` bytes (padding: one unknown global key-value);
+/// `plain` = no non_witness_utxo (its StreamedPSBT decode is the identity)
+pub fn gen_psbt_sized(rng: &mut Rng, target: usize, plain: bool) -> Psbt {
+    let base = if plain { gen_psbt_plain(rng) } else { gen_psbt_full(rng) };
+    let fill = rng.next() as u8;
+    let with = |pad: usize| {
+        let mut p = base.clone();
+        p.unknown.insert(
+            bitcoin::psbt::raw::Key { type_value: 0x7f, key: vec![0x42] },
+            vec![fill; pad],
+        );
+        p
+    };
+    let pad = fit(target, &|p| with(p).serialize().len());
+    let p = with(pad);
+    assert_eq!(p.serialize().len(), target);
+    p
+}
